@@ -9,12 +9,14 @@ package main
 
 import (
 	"fmt"
+	"math"
 	"math/big"
 	"os"
 	"path/filepath"
 	"reflect"
 	"regexp"
 	"sort"
+	"strconv"
 	"strings"
 	"sync"
 
@@ -500,4 +502,30 @@ func intLiteralCheck(text string, model any) string {
 		return strings.Join(xs, "/")
 	}
 	return "differ:text=" + clipJoin(want) + ";model=" + clipJoin(got)
+}
+
+// floatTokenBits: math.Float64bits of strconv.ParseFloat for every oC_DoubleLiteral of the raw ANTLR tree, in pre-order (a range
+// error returns ±Inf, whose bits are reported)
+func floatTokenBits(text string) []string {
+	lexer := parser.NewCypherLexer(antlr.NewInputStream(text))
+	lexer.RemoveErrorListeners()
+	p := parser.NewCypherParser(antlr.NewCommonTokenStream(lexer, antlr.TokenDefaultChannel))
+	p.RemoveErrorListeners()
+	var out []string
+	var walk func(t antlr.Tree)
+	walk = func(t antlr.Tree) {
+		if dl, ok := t.(*parser.OC_DoubleLiteralContext); ok {
+			v, _ := strconv.ParseFloat(dl.GetText(), 64)
+			out = append(out, strconv.FormatUint(math.Float64bits(v), 10))
+			return
+		}
+		for i := 0; i < t.GetChildCount(); i++ {
+			walk(t.GetChild(i))
+		}
+	}
+	func() {
+		defer func() { _ = recover() }()
+		walk(p.OC_Cypher())
+	}()
+	return out
 }
